@@ -467,11 +467,87 @@ def r19_8(chk, P):
     return n
 
 
+def r19_9(chk, P):
+    chk.rule('R19.9', 'the two handles of ov_crosslap are kept apart: every value the function computes (each definition of a scalar '
+             'or pointer local) depends, through the locals it is built from, on at most one of the two handle parameters -- the '
+             'block half-size, window, info and half-rate shift of handle 2 are derived from handle 2 alone -- and a call that '
+             'receives one handle receives per-handle values of that handle only.  The values of both handles meet in the '
+             'splice call and nowhere else.  (A shift of handle 2\'s block size by handle 1\'s half-rate flag is a crossed value)')
+    F = P.need('ov_crosslap')
+    hp = [p_['id'] for p_ in F.params if p_.get('record') == 'OggVorbis_File']
+    chk.require(len(hp) == 2, 'ov_crosslap: two handle parameters expected')
+    defs = {}       # var id -> list of (node, rhs)
+    for e in F.pos:
+        nd = F.ex[e]
+        if nd['k'] == 'decl':
+            for v in nd['vars']:
+                if 'id' in v and v.get('init'):
+                    defs.setdefault(v['id'], []).append((e, v['init']))
+        elif nd['k'] == 'assign' and nd['op'] == '=':
+            l = F.ex[F.strip_casts(nd['c'][0])]
+            if l['k'] == 'ref' and l['decl'].get('kind') == 'var':
+                defs.setdefault(l['decl']['id'], []).append((e, nd['c'][1]))
+    memo = {}
+
+    def deps_var(vid, stack=()):
+        if vid in hp:
+            return {vid}
+        if vid in memo:
+            return memo[vid]
+        if vid in stack:
+            return set()
+        out = set()
+        for (_e, r) in defs.get(vid, []):
+            out |= deps(r, stack + (vid,))
+        memo[vid] = out
+        return out
+
+    def deps(e, stack=()):
+        out = set()
+        for q in F.walk(e):
+            nd = F.ex[q]
+            if nd['k'] == 'ref' and nd['decl'].get('kind') in ('var', 'param'):
+                out |= deps_var(nd['decl']['id'], stack)
+        return out
+    n = 0
+    for vid, ds in sorted(defs.items()):
+        nm = F.vars.get(vid, {}).get('name', '?')
+        for k_, (e, r) in enumerate(ds):
+            d = deps(r)
+            n += 1
+            chk.ob('R19.9', F.name, f'definition-of-{nm}#{k_}-uses-one-handle', len(d) <= 1, F.where(e),
+                   f'`{F.s(e)[:60]}` depends on {"handle " + str(hp.index(next(iter(d))) + 1) if d else "no handle"}' if len(d) <= 1 else
+                   f'`{F.s(e)[:70]}` mixes values of both handles: a per-handle quantity (block size, half-rate shift, window, '
+                   'channel count) of one handle is combined with the other handle\'s')
+    # calls: a call that takes one handle (or a member of it) must not take values derived from the other
+    for c in F.calls():
+        args = F.ex[c].get('c', [])
+        direct = set()
+        for a in args:
+            for q in F.walk(a):
+                nd = F.ex[q]
+                if nd['k'] == 'ref' and nd['decl'].get('id') in hp:
+                    direct.add(nd['decl']['id'])
+        if len(direct) != 1:
+            continue
+        h = next(iter(direct))
+        other = set()
+        for a in args:
+            other |= deps(a) - {h}
+        n += 1
+        chk.ob('R19.9', F.name, f'call-{F.ex[c]["callee"].get("d", "?")}@{F.loc(c)}-uses-one-handle', not other, F.where(c),
+               f'`{F.s(c)[:60]}`: all arguments belong to handle {hp.index(h) + 1}' if not other else
+               f'`{F.s(c)[:70]}` works on handle {hp.index(h) + 1} but receives a value derived from the other handle')
+    return n
+
+
 def run(chk, P):
     r19_7(chk, P)
     chk.floor('R19.7', 2)
     r19_8(chk, P)
     chk.floor('R19.8', 3)
+    r19_9(chk, P)
+    chk.floor('R19.9', 8)
     r19_6(chk, P)
     chk.floor('R19.6', 4)
     r19_5(chk, P)
